@@ -445,6 +445,9 @@ func (c *Ctx) evalIdent(name string, env *Env) *Val {
 		if v := c.currentOfSpilledParam(name, env); v != nil {
 			return v
 		}
+		if v := c.reassignedParam(name); v != nil {
+			return v
+		}
 	}
 	if v, ok := env.names[name]; ok {
 		return v
@@ -1392,4 +1395,48 @@ func (c *Ctx) strSubSpec(base *Val, lo, hi string) *Val {
 		sImp(sAnd(sEq(lo, c.idxConst(0)), sEq(hi, sApp(l, base.S))), sEq(nm, base.S)),
 		fmt.Sprintf("(forall ((i %s)) (! (=> %s (= (%s %s i) (%s %s %s))) :pattern ((%s %s i))))", is, rng, bf, nm, bf, base.S, c.idxAdd(lo, "i"), bf, nm))))
 	return v
+}
+
+// reassignedParam: a parameter that the function assigns again (buf = buf[:n]) without taking
+// its address has no variable cell; go/ssa simply uses the new value from there on. The plain
+// name in a contract means the value in scope at the current point: the closest assignment
+// that dominates it (old(name) still means the value on entry).
+func (c *Ctx) reassignedParam(name string) *Val {
+	if c.curBlk == nil {
+		return nil
+	}
+	// the parameter's own variable object (a field or another variable of the same name must
+	// not be mistaken for it)
+	var pobj types.Object
+	for _, p := range c.fn.Params {
+		if p.Name() == name {
+			pobj = p.Object()
+		}
+	}
+	if pobj == nil {
+		return nil
+	}
+	var best ssa.Value
+	for _, v := range c.dbg[name] {
+		in, ok := v.(ssa.Instruction)
+		if !ok || in.Block() == nil || c.dbgObj[v] != pobj {
+			continue
+		}
+		if _, have := c.vals[v]; !have {
+			continue
+		}
+		if in.Block().Parent() != c.curBlk.Parent() {
+			continue
+		}
+		if !(in.Block() == c.curBlk || in.Block().Dominates(c.curBlk)) {
+			continue
+		}
+		if best == nil || best.(ssa.Instruction).Block().Dominates(in.Block()) {
+			best = v
+		}
+	}
+	if best == nil {
+		return nil
+	}
+	return c.vals[best]
 }
